@@ -118,6 +118,8 @@ type Analyzer struct {
 	// loop-invariant inference relates them to the program's counters.
 	Ghosts   []*ssa.Phi
 	ghostSet map[ssa.Value]bool
+	// OnExternalResult observes the result of a library call (after its model ran).
+	OnExternalResult func(fn *ssa.Function, site ssa.Instruction, name string, st *State, args []Term, val Term)
 	// OnStore observes stores of the entry function: the value held before and the value stored.
 	OnStore func(fn *ssa.Function, ins *ssa.Store, st *State, old, val Term)
 	// OnBranch observes every conditional edge after its condition has been assumed.
@@ -389,11 +391,10 @@ func (a *Analyzer) runFunc(fn *ssa.Function, st *State, args []Term, bindings []
 	fr := &frame{fn: fn, fi: a.info(fn), depth: depth}
 	oldEnv := st.Env
 	st.Env = map[ssa.Value]Term{}
-	if depth == 0 {
-		for _, g := range a.Ghosts {
-			if v, ok := oldEnv[g]; ok {
-				st.Env[g] = v
-			}
+	// ghosts thread through calls: the callee sees the caller's values and hands its own back
+	for _, g := range a.Ghosts {
+		if v, ok := oldEnv[g]; ok {
+			st.Env[g] = v
 		}
 	}
 	st.Defers = nil
